@@ -7,7 +7,7 @@
      <<"absent">>
      <<"file", c, mode, mt>>   content id c (size is a function of c: Size(c)), permission bits, mtime id
      <<"dir", mode, child>>    child = the entry named "n" inside (or absent)
-     <<"link", kind>>          kind in rel_inside | rel_up | dangling | abs_inside | abs_outside
+     <<"link", kind>>          kind in rel_inside | rel_up | dangling | abs_inside | abs_inside_dd (into an in-tree entry whose name starts with "..") | abs_outside
                                (on the target abs_inside means: points to the corresponding place under the target root)
 
    Sync(src, dst, del) transliterates serve_rsync / RSync.send: result [e |-> entry afterwards, sent |-> set of
@@ -27,7 +27,7 @@ Or700(m) == (m % 64) + 448
 
 \* how a source link arrives on the target.  cwd: "outside" | "root" (the source dir) | "inside" (the link's dir)
 LinkResult(kind, depth, cwd) ==
-  IF kind \in {"abs_inside", "abs_outside"} THEN <<"link", kind>>
+  IF kind \in {"abs_inside", "abs_inside_dd", "abs_outside"} THEN <<"link", kind>>
   ELSE IF Fix_RelLinkAsIs THEN <<"link", kind>>
   ELSE \* relpath(linkpoint, sourcedir) resolved against the cwd
        IF kind = "rel_inside" /\ cwd = "root" THEN <<"link", IF depth = 0 THEN "abs_inside" ELSE "abs_inside_wrong_place">>
